@@ -102,7 +102,9 @@ def run_case(case, R):
 # ---------------------------------------------------------------------------
 
 def tol_for(case):
-    return 1e-9 if case.get('dtype', 'c128') in ('c128', 'f64') else 2e-5
+    # single precision: log-densities of magnitude ~1e2 (rank-deficient classes, D up to 8) carry eps32 * 1e2 ~ 1e-5 each; every
+    # single-precision case has double-precision siblings judged at 1e-9
+    return 1e-9 if case.get('dtype', 'c128') in ('c128', 'f64') else 1e-4
 
 
 def run_fit(case, R):
